@@ -7,6 +7,14 @@ HOOK_COMMITS = subprocess.run(["git", "-C", "/repo", "log", "--format=%h %s", "-
 
 # id -> (technique, level text, level note, design ref)
 CLAIMED = {
+ "C04": ("property-based testing with a reply-reordering broker: generated per-channel call programs on concurrent client threads, replies (unique values per channel and sequence number) held and released in a generated cross-channel order; oracle = expectation table shared with C12",
+         "Exploration: every call must return exactly the values of the reply generated for its channel and sequence number, however replies are delayed, reordered and glued; nowait variants return without a reply; the wire per channel equals the expected frames.",
+         "Client threads are scheduled by the OS (sampled); the broker owns reply order and timing. At most one outstanding call per channel is a type-system fact.",
+         "DESIGN.md 4/C04"),
+ "C09": ("property-based testing: the C04 sessions plus one generated server-initiated Channel.Close (idle / call in flight / half-received content, optionally glued to other channels' replies); oracle = per-channel reference of results, errors and wire prefix",
+         "Exploration: on the closed channel results before the close equal the expectation, the failing call carries ServerClosedChannel{n, code, text}, later calls fail, the wire is a prefix plus exactly one CloseOk; all other channels keep the C04 oracle, the id is reusable, the session closes Ok.",
+         "The ServerClosedChannel error is handed to exactly one call; when that call is the implicit cancel inside Consumer::drop (whose result Drop discards) the next visible error may be EventLoopDropped, which is then accepted.",
+         "DESIGN.md 4/C09"),
  "C20": ("schedule-controlled property-based testing: the harness parks the I/O thread inside the mock transport's write and owns the composition and order of the next poll batch; all 190 ordered event subsets enumerated, request variants generated; differential oracle against serial executions on the same build",
          "Exploration, exhaustive over event-set shapes: no I/O-thread panic, Connection::close reports the server's close, every racing request returns what some serial execution (or the close's error) yields.",
          "The achieved batch composition is measured with the passive cfg(amiquip_verif) batch trace (used for non-triviality accounting only). Request enqueue order relies on 3 ms pauses while the I/O thread is parked; cases whose intended order was not achieved are counted as trivial, never as failures. Shapes with Channel.Close after the server's own Connection.Close are normalised (a compliant server cannot send them).",
